@@ -313,7 +313,12 @@ func (ex *Exec) binop(st *State, op token.Token, x, y T, xt types.Type, rt types
 		return Not(ex.eq(x, y, xt))
 	case token.LSS, token.LEQ, token.GTR, token.GEQ:
 		if x.sort == SStr {
-			vc.ufun("gs.lt", []Sort{SStr, SStr}, SBool)
+			if !vc.declSet["f:gs.lt"] {
+				vc.ufun("gs.lt", []Sort{SStr, SStr}, SBool)
+				vc.axiom("(forall ((a Str) (b Str)) (! (=> (gs.lt a b) (not (gs.lt b a))) :pattern ((gs.lt a b))))")
+				vc.axiom("(forall ((a Str) (b Str)) (! (or (= a b) (gs.lt a b) (gs.lt b a)) :pattern ((gs.lt a b))))")
+				vc.axiom("(forall ((a Str) (b Str) (c Str)) (! (=> (and (gs.lt a b) (gs.lt b c)) (gs.lt a c)) :pattern ((gs.lt a b) (gs.lt b c))))")
+			}
 			lt := func(a, b T) T { return mk(SBool, "gs.lt", a, b) }
 			vc.note("string ordering is an uninterpreted strict order")
 			switch op {
@@ -549,6 +554,9 @@ func (ex *Exec) execTypeAssert(st *State, in *ssa.TypeAssert) {
 		ex.tuples[in] = []T{Ite(is, v, vc.zero(at)), is}
 		if isRefType(at) {
 			ex.vc.assume(st.guard, Imp(is, And(Ge(v, IntLit(0)), Le(v, ex.ghostGet(st, "alloc")))))
+		} else if b, ok := at.Underlying().(*types.Basic); ok && b.Info()&types.IsInteger != 0 && !isTimeTime(at) {
+			lo, hi := intRange(b)
+			ex.vc.assume(st.guard, Imp(is, And(Ge(v, lo), Le(v, hi))))
 		}
 	} else {
 		ex.safeOblige(st, "type-assert", is)
